@@ -343,7 +343,9 @@ pub fn run_case(case: &mut Case) {
                         None => continue,
                     };
                     let tag = format!("env:{}", var);
-                    if !text.contains(&tag) {
+                    // the name is followed by `:` or ` =`; another variable may have it as prefix
+                    if !text.contains(&format!("{}:", tag)) && !text.contains(&format!("{} =", tag))
+                    {
                         continue;
                     }
                     case.rep.count("help-variable-states-checked");
